@@ -112,7 +112,9 @@ def run_case(case, stats):
             rel = rels[id(node)]
             exp = memo[id(node)]
             try:
-                got = env.run_iter(rel)
+                result = rel.engine.execute(rel)
+                got = [dict(r) for r in result]
+                again = [dict(r) for r in result] if node is prog else got
             except Exception as e:
                 raise Violation("execute-raised", f"{type(e).__name__}: {e}; relation {rel}; program {fmt(node, leaves)}", exc=e)
             if got != exp:
@@ -120,8 +122,34 @@ def run_case(case, stats):
                     "rows-differ",
                     f"program {fmt(node, leaves)}; tree {rel}; expected {show_rows(exp)} got {show_rows(got)}",
                 )
+            if again != exp:
+                raise Violation(
+                    "rows-differ",
+                    f"second iteration of the object returned by execute(): program {fmt(node, leaves)}; tree {rel}; expected {show_rows(exp)} got {show_rows(again)}",
+                    second_iteration=True,
+                )
             if set(rel.columns) != set().union(*[r.keys() for r in exp]) and exp:
                 raise Violation("columns-differ", f"{set(rel.columns)} vs row keys; program {fmt(node, leaves)}")
+        # a selection that guards, then a selection that is only defined on the guarded rows (floor division by the guarded
+        # column): however the two are merged, executing must give the rows of applying them one after the other
+        from vf.core.prog import schema
+        from vf.core.tags import sorted_tags
+
+        gcols = sorted_tags(schema(prog, leaves))
+        if gcols and int(codec.digest(case)[2:4], 16) % 3 == 0:
+            g = gcols[int(codec.digest(case)[4:6], 16) % len(gcols)]
+            guarded = ("sel", ("sel", prog, ("ne", ("ref", g), ("lit", 0))), ("ge", ("fdiv", ("lit", 6), ("ref", g)), ("lit", 2)))
+            exp_g = ev_list(guarded, leaves, check_fd=True)
+            try:
+                rel_g = build_all(guarded, env, rels)[id(guarded)]
+                got_g = env.run_iter(rel_g)
+            except BuildError as b:
+                raise Violation("build-raised", f"factory call for {fmt(b.node, leaves)} raised {type(b.exc).__name__}: {b.exc}", exc=b.exc, node_kind="sel")
+            except Exception as e:
+                raise Violation("execute-raised", f"guard, then a selection defined on the guarded rows only: {type(e).__name__}: {e}; relation {rel_g}; program {fmt(guarded, leaves)}", exc=e)
+            if got_g != exp_g:
+                raise Violation("rows-differ", f"program {fmt(guarded, leaves)}; tree {rel_g}; expected {show_rows(exp_g)} got {show_rows(got_g)}")
+            stats.c["guarded-selection-pairs"] += 1
         # equal relations are not interchangeable: the same program over twin leaves (same names, columns and engines,
         # other rows) builds trees that compare equal to the ones above; chaining the two must concatenate their rows
         if int(codec.digest(case)[:2], 16) % 2 == 0:
